@@ -26,8 +26,9 @@ import (
 	"google.golang.org/grpc/status"
 )
 
-// DriveRounds is how many reconcile rounds follow every created transaction.
-const DriveRounds = 8
+// DriveRounds bounds the reconcile rounds that follow every created transaction (driving stops
+// earlier when a whole round changes nothing).
+const DriveRounds = 40
 
 // Real is the executor of one case.
 type Real struct {
